@@ -264,7 +264,7 @@ def run_property(prop, tier, seed, replay=None):
         p = write_replay(prop, v)
         paths.append(p)
         print("VIOLATION property=%s replay=%s" % (prop, p))
-        print("  sub=%s case=%s" % (v["sub"], json.dumps(v["case"], default=str)[:600]))
+        print("  sub=%s case=%s" % (v["sub"], json.dumps(v["case"], default=str)[:300]))
         print("  expected=%s" % json.dumps(v.get("expected"), default=str)[:400])
         print("  actual=%s" % json.dumps(v.get("actual"), default=str)[:400])
         rc = 1
